@@ -44,11 +44,11 @@ pub fn registry() -> Vec<Prop> {
         Prop { id: "C02", run: p_c02::run, tape_len: 150, enumerate: None },
         Prop { id: "C03", run: p_c03::run, tape_len: 150, enumerate: None },
         Prop { id: "C04", run: p_auto::run_c04, tape_len: 160, enumerate: Some(p_auto::enumerate_c04) },
-        Prop { id: "C13", run: p_auto::run_c13, tape_len: 160, enumerate: None },
+        Prop { id: "C13", run: p_auto::run_c13, tape_len: 160, enumerate: Some(p_auto::enumerate_c13) },
         Prop { id: "C14", run: p_auto::run_c14, tape_len: 160, enumerate: Some(p_auto::enumerate_c14) },
         Prop { id: "C05", run: p_c05::run_c05, tape_len: 120, enumerate: None },
         Prop { id: "C18", run: p_c05::run_c18, tape_len: 120, enumerate: None },
-        Prop { id: "C19", run: p_c05::run_c19, tape_len: 120, enumerate: None },
+        Prop { id: "C19", run: p_c05::run_c19, tape_len: 120, enumerate: Some(p_c05::enumerate_c19) },
         Prop { id: "C06", run: p_c06::run, tape_len: 64, enumerate: Some(p_c06::enumerate) },
         Prop { id: "C07", run: p_c07::run, tape_len: 200, enumerate: Some(p_c07::enumerate) },
         Prop { id: "C08", run: p_c08::run, tape_len: 96, enumerate: Some(p_c08::enumerate) },
